@@ -168,6 +168,10 @@ def units(tier):
     us.append(Unit('verify_signable', vsign.factory('c13s', PROPS, N=1, M=1 if q else 2, Loh=4, rich=not q, junk=True, any_args=True,
                                                     thr_kinds=('int', 'bool', 'float', 'none', 'str', 'list'), modes=(True, False, None, 'x') if q else (True, False, 1, 0, None, 'x')),
                    max_witnesses=300, expect=('accepts', 'rejects:SignatureError', 'rejects:TypeError')))
+    # signed content whose well-known members (which a verifier might look at) are of any JSON kind
+    odd = lambda t: t.sdict('pl', [('metadata_spec_version', t.anyjson('msv', strL=3)), ('type', t.str('ptype', 3)), ('rest', t.payload('rest', dict))])
+    us.append(Unit('verify_signable:odd members', vsign.factory('c13o', PROPS, N=1, M=1, Loh=2, junk=False, thr_kinds=('int',), modes=(False,), payload=odd),
+                   max_witnesses=100, expect=('accepts', 'rejects:SignatureError')))
     us.append(Unit('verify_delegation', vdeleg.factory_vd('c13d', PROPS, **VD_CFG), max_witnesses=300,
                    expect=('accepts', 'rejects:UnknownRoleError', 'rejects:MetadataVerificationError', 'rejects:SignatureError', 'rejects:TypeError')))
     us.append(Unit('verify_root', vdeleg.factory_vr('c13r', PROPS, **VR_CFG), max_witnesses=300,
